@@ -191,7 +191,7 @@ fail:
 }
 /* g_sl_first: when non-zero, the same struct is first used for a one-shot call into g_sl_first-1 bytes of output (which overflows) and then,
  * without re-initialisation, for the judged call: isal_inflate_stateless() sets up everything it needs itself */
-static size_t g_sl_first; static long st_sl_retry;
+static size_t g_sl_first, g_sl_cut; static long st_sl_retry, st_sl_trunc;
 static int run_stateless(int mode, const uint8_t *in, size_t inlen, vrng *r, size_t outcap, const uint8_t *dict, size_t dictlen, int hist_bits, dres *res)
 {
 	struct inflate_state *s = (struct inflate_state *) gs_place(s_st, sizeof *s, vrn(r, 2) ? G_START : G_NEAR_END, 0);
@@ -201,6 +201,7 @@ static int run_stateless(int mode, const uint8_t *in, size_t inlen, vrng *r, siz
 	if (V_TRY(30)) {
 		isal_inflate_init(s); s->crc_flag = mode; s->hist_bits = hist_bits;
 		if (dict && mode != ISAL_ZLIB) { uint8_t *dd = gs_place(s_dict, dictlen, G_END, 0); memcpy(dd, dict, dictlen); isal_inflate_set_dict(s, dd, (uint32_t) dictlen); }
+		if (g_sl_cut && !dict && g_sl_cut <= inlen) { /* first a one-shot call on the same struct whose input stops inside the trailer */ s->next_in = pin; s->avail_in = (uint32_t) g_sl_cut; s->next_out = pout; s->avail_out = (uint32_t) outcap; int r0 = isal_inflate_stateless(s); if (r0 == ISAL_END_INPUT) st_sl_trunc++; s->crc_flag = mode; }
 		if (g_sl_first && !dict && g_sl_first - 1 <= outcap) { s->next_in = pin; s->avail_in = (uint32_t) inlen; s->next_out = pout; s->avail_out = (uint32_t) (g_sl_first - 1); int r0 = isal_inflate_stateless(s); if (r0 == ISAL_OUT_OVERFLOW) st_sl_retry++; s->crc_flag = mode; }
 		s->next_in = pin; s->avail_in = (uint32_t) inlen; s->next_out = pout; s->avail_out = (uint32_t) outcap;
 		ret = isal_inflate_stateless(s); V_END;
@@ -319,7 +320,7 @@ static void valid_case(long idx, vrng *r, const char *lvl, int systematic)
 		dres d;
 		/* (a) stateless with ample and with exact output */
 		size_t caps[3] = { v.elen + 1 + vrn(r, 300), v.elen, v.elen ? v.elen - 1 : 0 };
-		for (int k = 0; k < 3 && !v.dictlen; k++) { if (k && vrn(r, 2)) continue; g_sl_first = (k < 2 && v.elen >= 2 && vrn(r, 2)) ? 1 + vrn(r, (uint32_t) v.elen) : 0; int bad = run_stateless(mode, in, inlen, r, caps[k], dict, v.dictlen, 0, &d); g_sl_first = 0; if (bad) return; if (k == 2 && v.elen) { if (d.finished) viol_ev("stateless-success-without-room", "%zu bytes delivered into %zu", v.elen, caps[k]); continue; } judge(mode, in, inlen, &rv, &d, 1, "stateless", caps[k]); }
+		for (int k = 0; k < 3 && !v.dictlen; k++) { if (k && vrn(r, 2)) continue; g_sl_first = (k < 2 && v.elen >= 2 && vrn(r, 2)) ? 1 + vrn(r, (uint32_t) v.elen) : 0; g_sl_cut = (k < 2 && mode_verifies(mode) && inlen - tail > 12 && vrn(r, 3) == 0) ? inlen - tail - 1 - vrn(r, 7) : 0; int bad = run_stateless(mode, in, inlen, r, caps[k], dict, v.dictlen, 0, &d); g_sl_first = 0; g_sl_cut = 0; if (bad) return; if (k == 2 && v.elen) { if (d.finished) viol_ev("stateless-success-without-room", "%zu bytes delivered into %zu", v.elen, caps[k]); continue; } judge(mode, in, inlen, &rv, &d, 1, "stateless", caps[k]); }
 		/* (b) streaming in one call, (c) random schedule, fresh mapping per chunk */
 		if (run_streaming(mode, in, inlen, r, NICH - 1, NOCH - 1, 0, -1, -1, dict, v.dictlen, 0, 0, &d)) return; judge(mode, in, inlen, &rv, &d, 1, "stream-1call", 0);
 		int ik = vrn(r, NICH + 2), ok = vrn(r, NOCH + 2); if (v.elen > 20000 && ok < 9) ok = NOCH + 1; if (inlen > 20000 && ik < 9) ik = NICH + 1;
@@ -456,7 +457,7 @@ int main(int argc, char **argv)
 		}
 	}
 	v_stat("evaluations", st_decodes); v_stat("streams", st_streams); v_stat("library_calls", st_calls); v_stat("streams_with_codes_13plus", st_deep); v_stat("finished_results_checked_against_reference", st_false_ok_checked);
-	v_stat("rejected_but_reference_lenient", st_stricter); v_stat("mutants_still_valid_and_accepted", st_benign_ok); v_stat("trailer_straddling_histories", st_trailer_straddle); v_stat("need_dict_flows", st_needdict); v_stat("valid_streams_followed_by_foreign_bytes", st_tail); v_stat("stateless_retries_on_the_same_struct_after_overflow", st_sl_retry);
+	v_stat("rejected_but_reference_lenient", st_stricter); v_stat("mutants_still_valid_and_accepted", st_benign_ok); v_stat("trailer_straddling_histories", st_trailer_straddle); v_stat("need_dict_flows", st_needdict); v_stat("valid_streams_followed_by_foreign_bytes", st_tail); v_stat("stateless_retries_on_the_same_struct_after_overflow", st_sl_retry); v_stat("stateless_calls_on_a_struct_whose_previous_call_ended_inside_the_trailer", st_sl_trunc);
 	v_stat("inflate_dict_calls_refused", st_dict_refused);
 	v_count("stream_source", "grammar", st_kind[0]); v_count("stream_source", "zlib", st_kind[1]); v_count("stream_source", "isal", st_kind[2]);
 	v_count("flip_region", "header", st_detect[0]); v_count("flip_region", "body", st_detect[1]); v_count("flip_region", "trailer", st_detect[2]);
